@@ -191,6 +191,8 @@ def chk_sort(col, case):
     """case: rows [[chrom,a,b],...], variant in default|sort_order|key_function|string_encoded, dtype Interval|Bed6"""
     from bionumpy.arithmetics import sort_intervals
     rows, variant, dtype = [tuple(r) for r in case["rows"]], case["variant"], case.get("dtype", "Interval")
+    if variant == "string_encoded" and not rows:
+        return          # an empty column cannot be re-encoded; nothing to evaluate
     col.case(case, nontrivial=len(rows) > 1, contract="sort")
     I = mk_rows(rows, dtype)
     names = None
